@@ -26,8 +26,25 @@ def run64 (op : String) (a : List Nat) : String :=
   | "or", [x, y] => show64 (U64.or ⟨x⟩ ⟨y⟩)
   | "xor", [x, y] => show64 (U64.xor ⟨x⟩ ⟨y⟩)
   | "not", [x] => show64 (U64.not ⟨x⟩)
-  | "to128", [x] => show128 ⟨0, x⟩
-  | "to256", [x] => show256 ⟨0, 0, 0, x⟩
+  | "to64", [x] => show64 (U64.toU64 ⟨x⟩)
+  | "to128", [x] => show128 (U64.toU128 ⟨x⟩)
+  | "to256", [x] => show256 (U64.toU256 ⟨x⟩)
+  | "add64", [x, y, c] => let r := U64.add64 ⟨x⟩ ⟨y⟩ c; s!"ok {r.1} {r.2}"
+  | "sub64", [x, y, c] => let r := U64.sub64 ⟨x⟩ ⟨y⟩ c; s!"ok {r.1} {r.2}"
+  | "mul64", [x, y] => let r := U64.mul64 ⟨x⟩ ⟨y⟩; s!"ok {r.1} {r.2}"
+  | "zero", [x] => show64 (U64.zero ⟨x⟩)
+  | "max", [x] => show64 (U64.maxValue ⟨x⟩)
+  | "iszero", [x] => showB (U64.isZero ⟨x⟩)
+  | "set64", [x, v] => show64 (U64.set64 ⟨x⟩ v)
+  | "asu64", [x] => s!"ok {U64.asUint64 ⟨x⟩}"
+  | "eq", [x, y] => showB (U64.equals ⟨x⟩ ⟨y⟩)
+  | "lt", [x, y] => showB (U64.lessThan ⟨x⟩ ⟨y⟩)
+  | "gt", [x, y] => showB (U64.greaterThan ⟨x⟩ ⟨y⟩)
+  | "le", [x, y] => showB (U64.lessThanOrEqual ⟨x⟩ ⟨y⟩)
+  | "ge", [x, y] => showB (U64.greaterThanOrEqual ⟨x⟩ ⟨y⟩)
+  | "zerouint", [] => show64 zeroUint64
+  | "oneuint", [] => show64 oneUint64
+  | "from64", [v] => show64 (from64_64 v)
   | _, _ => "bad-op"
 
 def run128 (op : String) (a : List Nat) : String :=
@@ -49,8 +66,26 @@ def run128 (op : String) (a : List Nat) : String :=
   | "or", [x1, x0, y1, y0] => show128 (U128.or ⟨x1, x0⟩ ⟨y1, y0⟩)
   | "xor", [x1, x0, y1, y0] => show128 (U128.xor ⟨x1, x0⟩ ⟨y1, y0⟩)
   | "not", [x1, x0] => show128 (U128.not ⟨x1, x0⟩)
-  | "to64", [_, x0] => show64 ⟨x0⟩
-  | "to256", [x1, x0] => show256 ⟨0, 0, x1, x0⟩
+  | "to64", [x1, x0] => show64 (U128.toU64 ⟨x1, x0⟩)
+  | "to128", [x1, x0] => show128 (U128.toU128 ⟨x1, x0⟩)
+  | "to256", [x1, x0] => show256 (U128.toU256 ⟨x1, x0⟩)
+  | "div", [x1, x0, y1, y0] => ex show128 (U128.div ⟨x1, x0⟩ ⟨y1, y0⟩)
+  | "mod", [x1, x0, y1, y0] => ex show128 (U128.mod ⟨x1, x0⟩ ⟨y1, y0⟩)
+  | "div64", [x1, x0, y] => ex show128 (U128.div64 ⟨x1, x0⟩ y)
+  | "mod64", [x1, x0, y] => ex (fun (r : Nat) => s!"ok {r}") (U128.mod64 ⟨x1, x0⟩ y)
+  | "zero", [x1, x0] => show128 (U128.zero ⟨x1, x0⟩)
+  | "max", [x1, x0] => show128 (U128.maxValue ⟨x1, x0⟩)
+  | "iszero", [x1, x0] => showB (U128.isZero ⟨x1, x0⟩)
+  | "set64", [x1, x0, v] => show128 (U128.set64 ⟨x1, x0⟩ v)
+  | "asu64", [x1, x0] => s!"ok {U128.asUint64 ⟨x1, x0⟩}"
+  | "eq", [x1, x0, y1, y0] => showB (U128.equals ⟨x1, x0⟩ ⟨y1, y0⟩)
+  | "lt", [x1, x0, y1, y0] => showB (U128.lessThan ⟨x1, x0⟩ ⟨y1, y0⟩)
+  | "gt", [x1, x0, y1, y0] => showB (U128.greaterThan ⟨x1, x0⟩ ⟨y1, y0⟩)
+  | "le", [x1, x0, y1, y0] => showB (U128.lessThanOrEqual ⟨x1, x0⟩ ⟨y1, y0⟩)
+  | "ge", [x1, x0, y1, y0] => showB (U128.greaterThanOrEqual ⟨x1, x0⟩ ⟨y1, y0⟩)
+  | "zerouint", [] => show128 zeroUint128
+  | "oneuint", [] => show128 oneUint128
+  | "from64", [v] => show128 (from64_128 v)
   | _, _ => "bad-op"
 
 def run256 (op : String) (a : List Nat) : String :=
@@ -69,8 +104,22 @@ def run256 (op : String) (a : List Nat) : String :=
   | "or", [x3, x2, x1, x0, y3, y2, y1, y0] => show256 (U256.or ⟨x3, x2, x1, x0⟩ ⟨y3, y2, y1, y0⟩)
   | "xor", [x3, x2, x1, x0, y3, y2, y1, y0] => show256 (U256.xor ⟨x3, x2, x1, x0⟩ ⟨y3, y2, y1, y0⟩)
   | "not", [x3, x2, x1, x0] => show256 (U256.not ⟨x3, x2, x1, x0⟩)
-  | "to64", [_, _, _, x0] => show64 ⟨x0⟩
-  | "to128", [_, _, x1, x0] => show128 ⟨x1, x0⟩
+  | "to64", [x3, x2, x1, x0] => show64 (U256.toU64 ⟨x3, x2, x1, x0⟩)
+  | "to128", [x3, x2, x1, x0] => show128 (U256.toU128 ⟨x3, x2, x1, x0⟩)
+  | "to256", [x3, x2, x1, x0] => show256 (U256.toU256 ⟨x3, x2, x1, x0⟩)
+  | "zero", [x3, x2, x1, x0] => show256 (U256.zero ⟨x3, x2, x1, x0⟩)
+  | "max", [x3, x2, x1, x0] => show256 (U256.maxValue ⟨x3, x2, x1, x0⟩)
+  | "iszero", [x3, x2, x1, x0] => showB (U256.isZero ⟨x3, x2, x1, x0⟩)
+  | "set64", [x3, x2, x1, x0, v] => show256 (U256.set64 ⟨x3, x2, x1, x0⟩ v)
+  | "asu64", [x3, x2, x1, x0] => s!"ok {U256.asUint64 ⟨x3, x2, x1, x0⟩}"
+  | "eq", [x3, x2, x1, x0, y3, y2, y1, y0] => showB (U256.equals ⟨x3, x2, x1, x0⟩ ⟨y3, y2, y1, y0⟩)
+  | "lt", [x3, x2, x1, x0, y3, y2, y1, y0] => showB (U256.lessThan ⟨x3, x2, x1, x0⟩ ⟨y3, y2, y1, y0⟩)
+  | "gt", [x3, x2, x1, x0, y3, y2, y1, y0] => showB (U256.greaterThan ⟨x3, x2, x1, x0⟩ ⟨y3, y2, y1, y0⟩)
+  | "le", [x3, x2, x1, x0, y3, y2, y1, y0] => showB (U256.lessThanOrEqual ⟨x3, x2, x1, x0⟩ ⟨y3, y2, y1, y0⟩)
+  | "ge", [x3, x2, x1, x0, y3, y2, y1, y0] => showB (U256.greaterThanOrEqual ⟨x3, x2, x1, x0⟩ ⟨y3, y2, y1, y0⟩)
+  | "zerouint", [] => show256 zeroUint256
+  | "oneuint", [] => show256 oneUint256
+  | "from64", [v] => show256 (from64_256 v)
   | _, _ => "bad-op"
 
 def run (line : String) : String :=
